@@ -625,6 +625,7 @@ func fmtSet(m map[string]string) string {
 func shortAttrs(s string) string {
 	var keep []string
 	for _, f := range strings.Fields(s) {
+		f = strings.Trim(f, "{}")
 		if strings.HasPrefix(f, "med=") || strings.HasPrefix(f, "lp=") || strings.HasPrefix(f, "hidden=") {
 			keep = append(keep, f)
 		}
